@@ -336,6 +336,23 @@ int main(int argc, char **argv) {
       R.eval("rotation");
       if (fabsl((LD)eR - (LD)eAB) > tol)
         R.violation("rotation/energy-" + fam, "energy changes under a common rotation of both sites (StaticSite::Rotate)", W().vec("rotation_rowmajor", std::vector<double>{Rd(0, 0), Rd(0, 1), Rd(0, 2), Rd(1, 0), Rd(1, 1), Rd(1, 2), Rd(2, 0), Rd(2, 1), Rd(2, 2)}).vec("ref", std::vector<double>{ref.x(), ref.y(), ref.z()}).d("E", eAB).d("E_rotated", eR).d("tolerance", (double)tol));
+      // the pivot handed over as a reference to the site's own position (A.Rotate(R, A.getPos()), as one does to
+      // rotate a pair/segment about one of its sites): the pivot must stay where it is
+      {
+        StaticSite aA = sA, aB = sB;
+        aB.Rotate(Rd, aA.getPos());
+        aA.Rotate(Rd, aA.getPos());
+        double moved = (aA.getPos() - p.A.pos).norm();
+        R.eval("rotation_about_own_position");
+        if (moved > 16 * EPS * (p.A.pos.norm() + 1))
+          R.violation("rotation/about-own-position-moves-site", "a site rotated about its own position (pivot passed as site.getPos()) is displaced", W().d("displacement", moved));
+        else {
+          double eO = ee.CalcStaticEnergy_site(aA, aB);
+          LD tolO = 5e-13L * scale * (1 + 1);
+          if (fabsl((LD)eO - (LD)eAB) > tolO)
+            R.violation("rotation/energy-about-own-position-" + fam, "energy changes under a common rotation about the position of site A", W().d("E", eAB).d("E_rotated", eO).d("tolerance", (double)tolO));
+        }
+      }
       // moments after Rotate against the independent rotation
       Spec iA = rotate_spec(p.A, Rd, ref), iB = rotate_spec(p.B, Rd, ref);
       const Spec *isp[2] = {&iA, &iB};
